@@ -180,9 +180,20 @@ pub fn view_json(mode: u8, d: &Difficulty, map: &Beatmap) -> (String, u64) {
         2 => {
             let (ev, n_palpable) = rosu_pp::verif::catch::record_events(d, map);
             let n = ev.len() as u64;
+            // counted from the map itself, independently of the juice-stream code: every circle,
+            // and per slider its head, one fruit per repeat, and its tail
+            let expect_fruits: u64 = map
+                .hit_objects
+                .iter()
+                .map(|h| match &h.kind {
+                    rosu_pp::model::hit_object::HitObjectKind::Circle => 1,
+                    rosu_pp::model::hit_object::HitObjectKind::Slider(s) => s.repeats as u64 + 2,
+                    _ => 0,
+                })
+                .sum();
             (
                 format!(
-                    "{{\"events\":{},\"n_palpable\":{n_palpable}}}",
+                    "{{\"events\":{},\"n_palpable\":{n_palpable},\"expect_fruits\":{expect_fruits}}}",
                     arr(ev.iter().map(|(f, t)| format!("[{},{t}]", u8::from(*f))))
                 ),
                 n,
